@@ -1157,12 +1157,13 @@ class GroupBy:
             timestamps = {
                 k: dtype
                 for k, dtype in result_df.dtypes.items()
-                if func_is_mean and dtype.kind in "mM"
+                if effective_func_name == "sum" and dtype.kind in "mM"
             }
             if timestamps:
-                # the sums behind a mean of timestamps are tick counts: they are added up as
-                # whole numbers, column by column (pandas refuses to add datetimes, and a float
-                # column alongside would turn the ticks into floats)
+                # sums of timestamps / durations (also those behind a mean) are tick counts:
+                # they are added up as whole numbers, column by column (pandas refuses to add
+                # datetimes, adds timedeltas in floating point, and a float column alongside
+                # would turn the ticks into floats)
                 result_df = pd.DataFrame(
                     {
                         k: self._add_margins(
